@@ -1,6 +1,7 @@
 package symex
 
 import (
+	"math/bits"
 	"fmt"
 	"go/types"
 	"net"
@@ -695,6 +696,54 @@ func (P *Program) registerStd() {
 		var cell value = bigVal{t}
 		return tuple{&cell, iface{}}
 	})
+	// ---- sort.Slice / SliceStable: a stable insertion sort driven by the program's own less
+	// function (each comparison of symbolic keys is a branch)
+	sortSlice := func(fr *frame, args []value) value {
+		in := fr.in
+		sv, ok := args[0].(iface)
+		if !ok || sv.t == nil {
+			return nil
+		}
+		xs, ok := sv.v.(sliceVal)
+		if !ok {
+			panic(unsupported{"sort.Slice on a non-slice"})
+		}
+		less := func(i, j int) bool {
+			r := in.call(fr, 0, args[1], []value{in.intv(int64(i)), in.intv(int64(j))})
+			return in.branch(tm(r))
+		}
+		for i := 1; i < len(xs); i++ {
+			for j := i; j > 0 && less(j, j-1); j-- {
+				xs[j], xs[j-1] = xs[j-1], xs[j]
+			}
+		}
+		return nil
+	}
+	// ---- math/bits.Len*: bit length (an ite chain over the leading bit for symbolic arguments)
+	bitsLen := func(w int) intrinsic {
+		return func(fr *frame, args []value) value {
+			in := fr.in
+			c := in.C
+			x := tm(args[0])
+			if x.IsConst() {
+				return in.intv(int64(bits.Len64(x.U64())))
+			}
+			xw := x.Sort.W
+			r := c.BVConstI(0, 64)
+			for i := 0; i < xw && i < w; i++ {
+				bit := c.Eq(c.Extract(x, i, i), c.BVConstU(1, 1))
+				r = c.Ite(bit, c.BVConstI(int64(i+1), 64), r)
+			}
+			return r
+		}
+	}
+	P.reg("math/bits.Len", bitsLen(64))
+	P.reg("math/bits.Len64", bitsLen(64))
+	P.reg("math/bits.Len32", bitsLen(32))
+	P.reg("math/bits.Len16", bitsLen(16))
+	P.reg("math/bits.Len8", bitsLen(8))
+	P.reg("sort.Slice", sortSlice)
+	P.reg("sort.SliceStable", sortSlice)
 	// ---- misc
 	P.reg("os.Exit", func(fr *frame, args []value) value { panic(targetPanic{msg: "os.Exit called"}) })
 }
